@@ -86,6 +86,32 @@ theorem wavedec_band_first (h0 h1 : List R) (J : Nat) (x x' : List R) (k : Nat) 
   simp only [Spec.wavedec, List.getD_cons_zero]
   exact dwt_zero_local h1 x x' hlen k hw
 
+/-- **every band-pass level**: coefficient indices `[lo, hi]` of level `i + 1` (0-based `i`) of a `J`-level pyramid read the window
+`[2^(i+1) lo − (2^(i+1) − 1)(L − 1), 2^(i+1) hi + 2^(i+1) − 1]` (both filters `L` long) -/
+theorem wavedec_band_agree (h0 h1 : List R) (hL : h1.length = h0.length) : ∀ (i J : Nat) (x x' : List R) (lo hi : Int), i < J →
+    x.length = x'.length →
+    AgreeOn x x' ((2:Int) ^ (i + 1) * lo - ((2:Int) ^ (i + 1) - 1) * ((h0.length : Int) - 1)) ((2:Int) ^ (i + 1) * hi + (2:Int) ^ (i + 1) - 1) →
+    AgreeOn ((Spec.wavedec .zero h0 h1 J x).2.getD i []) ((Spec.wavedec .zero h0 h1 J x').2.getD i []) lo hi
+  | 0, J+1, x, x', lo, hi, _, hlen, hw => by
+    simp only [Spec.wavedec, List.getD_cons_zero]
+    apply dwt_zero_agree h1 x x' hlen
+    intro t ht1 ht2
+    rw [hL] at ht1
+    apply hw t
+    · simp only [zero_add, pow_one]; linarith
+    · simp only [zero_add, pow_one]; linarith
+  | i+1, J+1, x, x', lo, hi, hi', hlen, hw => by
+    simp only [Spec.wavedec, List.getD_cons_succ]
+    apply wavedec_band_agree h0 h1 hL i J _ _ lo hi (by omega) (dwt_zero_length h0 x x' hlen)
+    apply dwt_zero_agree h0 x x' hlen
+    intro t ht1 ht2
+    have e2 : (2:Int) ^ (i + 1 + 1) = 2 * (2:Int) ^ (i + 1) := by rw [pow_succ]; ring
+    rw [e2] at hw
+    apply hw t
+    · linarith
+    · linarith
+  | _, 0, _, _, _, _, h, _, _ => absurd h (by omega)
+
 /-- non-vacuity and what the window is for `db2` (`L = 4`), two levels, coefficient 5: the samples 11 … 23 -/
 example : ((2:Int) ^ 2 * 5 - ((2:Int) ^ 2 - 1) * ((4:Int) - 1), (2:Int) ^ 2 * 5 + (2:Int) ^ 2 - 1) = (11, 23) := by decide
 
